@@ -106,18 +106,35 @@ pub fn gcsched_main(_args: &[String]) {
 }
 
 /// C14: run the same program k times on one interpreter, collect after each run, report live object counts.
+/// One run of another program on the same interpreter: {src, path?, modules?, entry?, stop?} (stop = abandon after n host steps)
+fn run_other(i: &mut tsrun::Interpreter, log: &Log, h: &serde_json::Value) {
+    let mut q = case_policy(h);
+    if let Some(n) = h.get("stop").and_then(|x| x.as_u64()) { q.budget = n; }
+    let src = h.get("src").and_then(|x| x.as_str()).unwrap_or("");
+    let mp = q.path.as_ref().map(|s| tsrun::ModulePath::new(s.as_str()));
+    let first = if h.get("entry").and_then(|x| x.as_str()) == Some("eval") { i.eval(src, mp) } else { i.prepare(src, mp) };
+    let _ = drive(i, log, first, &q);
+}
+
 pub fn leak_case(v: &serde_json::Value) -> serde_json::Value {
     let src = v.get("src").and_then(|x| x.as_str()).unwrap_or("").to_string();
     let k = v.get("k").and_then(|x| x.as_u64()).unwrap_or(8);
     let gc = v.get("gc").and_then(|x| x.as_u64());
     let p = case_policy(v);
+    let use_eval = v.get("entry").and_then(|x| x.as_str()) == Some("eval");
+    let others = |key: &str| -> Vec<serde_json::Value> { v.get(key).and_then(|x| x.as_array()).cloned().unwrap_or_default() };
+    let history = others("history"); let between = others("between");
     let r = std::panic::catch_unwind(move || {
         let (mut i, log) = new_interp();
         if let Some(t) = gc { i.set_gc_threshold(t as usize); }
         let mut lives: Vec<u64> = vec![]; let mut outs: Vec<String> = vec![]; let mut summaries: Vec<String> = vec![];
+        // other runs this interpreter has seen before the repetitions start, and between them
+        for h in &history { run_other(&mut i, &log, h); }
         for _ in 0..k {
+            for h in &between { run_other(&mut i, &log, h); }
             log.borrow_mut().clear();
-            let first = i.prepare(&src, p.path.as_ref().map(|s| tsrun::ModulePath::new(s.as_str())));
+            let mp = p.path.as_ref().map(|s| tsrun::ModulePath::new(s.as_str()));
+            let first = if use_eval { i.eval(&src, mp) } else { i.prepare(&src, mp) };
             let o = drive(&mut i, &log, first, &p);
             outs.push(o.core());
             i.collect();
